@@ -449,6 +449,9 @@ fn walk_object_as_everything(id: u64, r: &impl Resolve, st: &mut Stats) {
     if let Some(a) = st.res("get<Annot>", r.get::<Annot>(Ref::new(pr))) {
         walk_annot(&a, r, st);
     }
+    if let Some(e) = st.res("get<AppearanceStreamEntry>", r.get::<AppearanceStreamEntry>(Ref::new(pr))) {
+        walk_appearance_entry(&e, r, st, 4);
+    }
     st.res("get<Encoding>", r.get::<Encoding>(Ref::new(pr)).map(|_| ()));
     if let Some(res) = st.res("get<Resources>", r.get::<Resources>(Ref::new(pr))) {
         walk_resources(&res, r, st, 3);
